@@ -266,7 +266,7 @@ lemma betaCoef_zero (exps : List (ConeProg K × List ℕ)) (I : DroIn K) (s j d 
 `dro.Model.do_math()`).
 
 Let `droItems D = .ok (items, nd)` and let `x` be feasible for the compiled program.  For every declared
-expectation constraint `E(max_l piece_l) <= 0` / `== 0` (`DCon.E ps eq a`: an entry of `all_constr`, or the
+expectation constraint `E(max_l piece_l) <= 0` / `== 0` (`DCon.E ps eq a pat`: an entry of `all_constr`, or the
 objective row `dec_vars[0] >= E(...) * sign`) with ambiguity set `A = D.amb ai` (its own or the default one),
 every half `h` (`h = 1`: the negated expression of an equality) and every row `i`: there is a width `cur`
 (`rc_model.last` when the row was processed) such that for **every admissible distribution** — scenario
@@ -284,7 +284,8 @@ theorem dro_model_sound_E (D : DroDesc K) (hD : RuleWF D) (items : List (DItem K
     (E : K → K → K → Prop) (hE : ExpPair E)
     (hEsc : ∀ t a b c : K, 0 ≤ t → E a b c → E (t * a) (t * b) (t * c)) (hmono : ExpMono E)
     (x : ℕ → K) (hx : (compile items nd).Feas E x)
-    (ps : List (Constr K)) (eq : Bool) (a : Option ℕ) (hc : DCon.E ps eq a ∈ D.objc :: D.cons)
+    (ps : List (Constr K)) (eq : Bool) (a : Option ℕ) (pat : ℕ → ℕ → ℕ → Bool)
+    (hc : DCon.E ps eq a pat ∈ D.objc :: D.cons)
     (ai : ℕ) (hai : eAmb D a = some ai) (hA : AmbWF (D.amb ai) D.S D.nrand)
     (hnp : 0 < ps.length)
     (h : ℕ) (hh : h < (if eq then 2 else 1)) (i : ℕ) (hi : i < eRowsOf ps) :
@@ -301,7 +302,7 @@ theorem dro_model_sound_E (D : DroDesc K) (hD : RuleWF D) (items : List (DItem K
   obtain ⟨hwf, hn0⟩ := droItems_wf D items nd hok
   unfold droItems at hok
   obtain ⟨cur0, L', c1, hcur0, hcon, hsub, hc1⟩ := go_mem D _ _ _ _ hok _ hc
-  obtain ⟨ai', hai', hL, hc1'⟩ := conItems_E D cur0 ps eq a L' c1 hcon
+  obtain ⟨ai', hai', _, hL, hc1'⟩ := conItems_E D cur0 ps eq a pat L' c1 hcon
   rw [hai] at hai'
   injection hai' with hai'
   subst hai'
@@ -507,49 +508,77 @@ def pwUser (ps : List (Constr K)) (neg : Bool) (i : ℕ) (r : Rule) (nrand : ℕ
   (range ps.length).sup' ⟨0, mem_range.mpr hnp⟩ fun l => (pieceRows ps neg l).eval i (r.x nrand s v z) z
 
 /-- what the pieces of an expectation constraint must satisfy for the substitution lemma: written over the
-vt_model's columns and the model's random components, and **no decision column with a random coefficient is
-affinely adaptive** (`ro_to_roc` raises `SyntaxError('Incorrect affine expressions.')` in that case;
-`dro_to_roc` does not check it and silently drops the product term) -/
+vt_model's columns and the model's random components, and **no decision column with a random coefficient (in a
+row of a `DecRoConstr` piece) is affinely adaptive**.  The last clause is what `dro_to_roc` checks (it raises
+`SyntaxError('Incorrect affine expressions.')` otherwise, as `ro_to_roc` does): it FOLLOWS from
+`droItems D = .ok …` (`droItems_piecesOK`). -/
 def PiecesOK (D : DroDesc K) (ps : List (Constr K)) : Prop :=
-  ∀ p ∈ ps, p.rows.nz = D.nrand ∧ D.rule.nv = p.rows.nd ∧
-    ∀ n j d, p.rows.Rl n j d ≠ 0 → ∀ j', D.rule.mask d j' = false
+  ∀ l < ps.length, (ps.getD l Constr.zero).rows.nz = D.nrand ∧ D.rule.nv = (ps.getD l Constr.zero).rows.nd ∧
+    ((ps.getD l Constr.zero).kind = .ro → ∀ i < eRowsOf ps, ∀ j, ∀ d < D.rule.nv,
+      (ps.getD l Constr.zero).rows.Rl i j d ≠ 0 → ∀ j' < D.nrand, D.rule.mask d j' = false)
+
+/-- well-formedness of the exported pieces (the analogue of `hnv`, `hrst` of part (i)): written over the vt_model's
+columns and the model's random components, and `pat` covers the pattern of the random coefficients
+(`raffine.linear[row_ind].indices`) -/
+def PiecesWF (D : DroDesc K) (ps : List (Constr K)) (pat : ℕ → ℕ → ℕ → Bool) : Prop :=
+  ∀ l < ps.length, (ps.getD l Constr.zero).rows.nz = D.nrand ∧ D.rule.nv = (ps.getD l Constr.zero).rows.nd ∧
+    ∀ i j d, (ps.getD l Constr.zero).rows.Rl i j d ≠ 0 → pat l i d = true
+
+/-- **`PiecesOK` follows from the absence of an exception**: if the model of `do_math` raises nothing, no
+expectation constraint has a random coefficient on an affinely adaptive decision. -/
+theorem droItems_piecesOK (D : DroDesc K) (items : List (DItem K)) (nd : ℕ)
+    (hok : droItems D = .ok (items, nd))
+    (ps : List (Constr K)) (eq : Bool) (a : Option ℕ) (pat : ℕ → ℕ → ℕ → Bool)
+    (hc : DCon.E ps eq a pat ∈ D.objc :: D.cons) (hwf : PiecesWF D ps pat) : PiecesOK D ps := by
+  unfold droItems at hok
+  obtain ⟨cur0, L', c1, _, hcon, _, _⟩ := go_mem D _ _ _ _ hok _ hc
+  obtain ⟨_, _, hrej, _, _⟩ := conItems_E D cur0 ps eq a pat L' c1 hcon
+  intro l hl
+  obtain ⟨h1, h2, h3⟩ := hwf l hl
+  refine ⟨h1, h2, ?_⟩
+  intro hk i hi j d hd hne j' hj'
+  exact not_rejectsE D.rule D.nrand ps pat (eRowsOf ps) hrej i hi l hl hk d hd (h3 i j d hne) j' hj'
 
 lemma pieceRows_facts (D : DroDesc K) (ps : List (Constr K)) (hps : PiecesOK D ps) (neg : Bool) (l : ℕ)
-    (hl : l < ps.length) :
+    (hl : l < ps.length) (i : ℕ) (hi : i < eRowsOf ps) :
     (pieceRows ps neg l).nz = D.nrand ∧ D.rule.nv = (pieceRows ps neg l).nd ∧
-    ∀ n j d, (pieceRows ps neg l).Rl n j d ≠ 0 → ∀ j', D.rule.mask d j' = false := by
-  have hmem : ps.getD l Constr.zero ∈ ps := by
-    rw [List.getD_eq_getElem _ _ hl]; exact List.getElem_mem _
-  obtain ⟨h1, h2, h3⟩ := hps _ hmem
+    ∀ j, ∀ d < D.rule.nv, (pieceRows ps neg l).Rl i j d ≠ 0 → ∀ j' < D.nrand, D.rule.mask d j' = false := by
+  obtain ⟨h1, h2, h3⟩ := hps l hl
   have hO : (ps.getD l Constr.zero).orig.nz = (ps.getD l Constr.zero).rows.nz ∧
       (ps.getD l Constr.zero).orig.nd = (ps.getD l Constr.zero).rows.nd ∧
-      ∀ n j d, (ps.getD l Constr.zero).orig.Rl n j d ≠ 0 → (ps.getD l Constr.zero).rows.Rl n j d ≠ 0 := by
+      ∀ n j d, (ps.getD l Constr.zero).orig.Rl n j d ≠ 0 →
+        (ps.getD l Constr.zero).kind = .ro ∧ (ps.getD l Constr.zero).rows.Rl n j d ≠ 0 := by
     unfold Constr.orig
-    cases (ps.getD l Constr.zero).kind
-    · exact ⟨rfl, rfl, fun _ _ _ h => h⟩
+    cases hk : (ps.getD l Constr.zero).kind
+    · exact ⟨rfl, rfl, fun _ _ _ h => ⟨rfl, h⟩⟩
     · exact ⟨rfl, rfl, fun _ _ _ h => absurd rfl h⟩
   unfold pieceRows
   cases neg
   · simp only [Bool.false_eq_true, if_false]
-    exact ⟨hO.1.trans h1, h2.trans hO.2.1.symm, fun n j d h => h3 n j d (hO.2.2 n j d h)⟩
+    refine ⟨hO.1.trans h1, h2.trans hO.2.1.symm, fun j d hd h j' hj' => ?_⟩
+    obtain ⟨hk, hne⟩ := hO.2.2 i j d h
+    exact h3 hk i hi j d hd hne j' hj'
   · simp only [if_true]
-    refine ⟨hO.1.trans h1, h2.trans hO.2.1.symm, fun n j d h => h3 n j d (hO.2.2 n j d ?_)⟩
-    intro h0
-    apply h
-    show - (ps.getD l Constr.zero).orig.Rl n j d = 0
-    rw [h0, neg_zero]
+    refine ⟨hO.1.trans h1, h2.trans hO.2.1.symm, fun j d hd h j' hj' => ?_⟩
+    have hne0 : (ps.getD l Constr.zero).orig.Rl i j d ≠ 0 := by
+      intro h0
+      apply h
+      show - (ps.getD l Constr.zero).orig.Rl i j d = 0
+      rw [h0, neg_zero]
+    obtain ⟨hk, hne⟩ := hO.2.2 i j d hne0
+    exact h3 hk i hi j d hd hne j' hj'
 
 /-- **the pieces of `droIn` are the user's pieces at the rule values** (substitution lemma) -/
 lemma pieceVal_droIn (D : DroDesc K) (hD : RuleWF D) (ps : List (Constr K)) (hps : PiecesOK D ps)
-    (cur : ℕ) (hcur : D.n0 ≤ cur) (neg : Bool) (i s : ℕ) (hs : s < D.S) (l : ℕ) (hl : l < ps.length)
-    (v z : ℕ → K) :
+    (cur : ℕ) (hcur : D.n0 ≤ cur) (neg : Bool) (i : ℕ) (hi : i < eRowsOf ps) (s : ℕ) (hs : s < D.S)
+    (l : ℕ) (hl : l < ps.length) (v z : ℕ → K) :
     (droIn D.rule D.S D.nrand cur ps neg i).pieceVal s l v z
       = (pieceRows ps neg l).eval i (D.rule.x D.nrand s v z) z := by
-  obtain ⟨hnz, hnv, hprod⟩ := pieceRows_facts D ps hps neg l hl
+  obtain ⟨hnz, hnv, hprod⟩ := pieceRows_facts D ps hps neg l hl i hi
   have hsub := subst_eval D.rule s cur (pieceRows ps neg l) hnv
     (fun d hd => lt_of_lt_of_le (hD.cc s hs d hd) hcur)
     (fun d hd j _ hm => lt_of_lt_of_le (hD.lc s hs d hd j hm) hcur) i
-    (fun j _ d _ hne j' _ => hprod i j d hne j') v z
+    (fun j _ d hd hne j' hj' => hprod j d hd hne j' (by rw [← hnz]; exact hj')) v z
   rw [hnz] at hsub
   rw [← hsub]
   unfold DroIn.pieceVal RoRows.eval droIn
@@ -558,15 +587,16 @@ lemma pieceVal_droIn (D : DroDesc K) (hD : RuleWF D) (ps : List (Constr K)) (hps
   rw [hnz]
   rfl
 
-/-- **Expectation constraints in the user's terms**: under `PiecesOK`, for every half, every row and every
-admissible distribution, `Σ_s π_s · E_s[ max_l piece_l(x_s(z̃), z̃) ] ≤ 0` where `x_s(z)` are the decisions
-obtained by evaluating the decision rules of scenario `s` at `(x, z)`. -/
-theorem dro_model_sound_E' (D : DroDesc K) (hD : RuleWF D) (items : List (DItem K)) (nd : ℕ)
+/-- **Expectation constraints in the user's terms, `PiecesOK` as an explicit hypothesis**: for every half, every
+row and every admissible distribution, `Σ_s π_s · E_s[ max_l piece_l(x_s(z̃), z̃) ] ≤ 0` where `x_s(z)` are the
+decisions obtained by evaluating the decision rules of scenario `s` at `(x, z)`. -/
+theorem dro_model_sound_E_pieces (D : DroDesc K) (hD : RuleWF D) (items : List (DItem K)) (nd : ℕ)
     (hok : droItems D = .ok (items, nd))
     (E : K → K → K → Prop) (hE : ExpPair E)
     (hEsc : ∀ t a b c : K, 0 ≤ t → E a b c → E (t * a) (t * b) (t * c)) (hmono : ExpMono E)
     (x : ℕ → K) (hx : (compile items nd).Feas E x)
-    (ps : List (Constr K)) (eq : Bool) (a : Option ℕ) (hc : DCon.E ps eq a ∈ D.objc :: D.cons)
+    (ps : List (Constr K)) (eq : Bool) (a : Option ℕ) (pat : ℕ → ℕ → ℕ → Bool)
+    (hc : DCon.E ps eq a pat ∈ D.objc :: D.cons)
     (ai : ℕ) (hai : eAmb D a = some ai) (hA : AmbWF (D.amb ai) D.S D.nrand)
     (hnp : 0 < ps.length) (hps : PiecesOK D ps)
     (h : ℕ) (hh : h < (if eq then 2 else 1)) (i : ℕ) (hi : i < eRowsOf ps)
@@ -578,7 +608,7 @@ theorem dro_model_sound_E' (D : DroDesc K) (hD : RuleWF D) (items : List (DItem 
     (hμ : ∀ k < (D.amb ai).exps.length, ∀ j < D.nrand, evProb (D.amb ai).exps k π * ν k j
         = ∑ s ∈ range D.S, if s ∈ idx (D.amb ai).exps k then π s * Es s (fun z => z j) else 0) :
     ∑ s ∈ range D.S, π s * Es s (fun z => pwUser ps (decide (h = 1)) i D.rule D.nrand hnp s x z) ≤ 0 := by
-  obtain ⟨cur, hcur, H⟩ := dro_model_sound_E D hD items nd hok E hE hEsc hmono x hx ps eq a hc ai hai hA hnp
+  obtain ⟨cur, hcur, H⟩ := dro_model_sound_E D hD items nd hok E hE hEsc hmono x hx ps eq a pat hc ai hai hA hnp
     h hh i hi
   have H' := H π hπ hπ0 Es hEs ν hν ht hμ
   have e : ∀ s ∈ range D.S,
@@ -590,9 +620,35 @@ theorem dro_model_sound_E' (D : DroDesc K) (hD : RuleWF D) (items : List (DItem 
     funext z
     unfold pwUser C03Rows.pwMax
     exact Finset.sup'_congr _ rfl (fun l hl =>
-      (pieceVal_droIn D hD ps hps cur hcur (decide (h = 1)) i s hs' l (Finset.mem_range.mp hl) x z).symm)
+      (pieceVal_droIn D hD ps hps cur hcur (decide (h = 1)) i hi s hs' l (Finset.mem_range.mp hl) x z).symm)
   rw [Finset.sum_congr rfl e]
   exact H'
+
+/-- **Expectation constraints in the user's terms** (`dro_rows_sound` lifted to `dro.Model.do_math()`; `PiecesOK`
+is derived from the absence of an exception): for every declared expectation constraint whose exported data are
+well-formed (`PiecesWF`), every half, every row and every admissible distribution,
+`Σ_s π_s · E_s[ max_l piece_l(x_s(z̃), z̃) ] ≤ 0` where `x_s(z)` are the decisions obtained by evaluating the decision
+rules of scenario `s` at `(x, z)`. -/
+theorem dro_model_sound_E' (D : DroDesc K) (hD : RuleWF D) (items : List (DItem K)) (nd : ℕ)
+    (hok : droItems D = .ok (items, nd))
+    (E : K → K → K → Prop) (hE : ExpPair E)
+    (hEsc : ∀ t a b c : K, 0 ≤ t → E a b c → E (t * a) (t * b) (t * c)) (hmono : ExpMono E)
+    (x : ℕ → K) (hx : (compile items nd).Feas E x)
+    (ps : List (Constr K)) (eq : Bool) (a : Option ℕ) (pat : ℕ → ℕ → ℕ → Bool)
+    (hc : DCon.E ps eq a pat ∈ D.objc :: D.cons)
+    (ai : ℕ) (hai : eAmb D a = some ai) (hA : AmbWF (D.amb ai) D.S D.nrand)
+    (hnp : 0 < ps.length) (hpw : PiecesWF D ps pat)
+    (h : ℕ) (hh : h < (if eq then 2 else 1)) (i : ℕ) (hi : i < eRowsOf ps)
+    (π : ℕ → K) (hπ : (D.amb ai).pro.Feas E π) (hπ0 : ∀ s < D.S, 0 ≤ π s)
+    (Es : ℕ → ((ℕ → K) → K) → K)
+    (hEs : ∀ s < D.S, CondExp (suppOf ((D.amb ai).sup s) E D.nrand) (Es s))
+    (ν : ℕ → ℕ → K) (hν : ∀ k < (D.amb ai).exps.length, (blk (D.amb ai).exps k).Feas E (ν k))
+    (ht : ∀ k < (D.amb ai).exps.length, 0 ≤ evProb (D.amb ai).exps k π)
+    (hμ : ∀ k < (D.amb ai).exps.length, ∀ j < D.nrand, evProb (D.amb ai).exps k π * ν k j
+        = ∑ s ∈ range D.S, if s ∈ idx (D.amb ai).exps k then π s * Es s (fun z => z j) else 0) :
+    ∑ s ∈ range D.S, π s * Es s (fun z => pwUser ps (decide (h = 1)) i D.rule D.nrand hnp s x z) ≤ 0 :=
+  dro_model_sound_E_pieces D hD items nd hok E hE hEsc hmono x hx ps eq a pat hc ai hai hA hnp
+    (droItems_piecesOK D items nd hok ps eq a pat hc hpw) h hh i hi π hπ hπ0 Es hEs ν hν ht hμ
 
 /-! ### The whole program -/
 
@@ -605,8 +661,10 @@ properties, and let `x` be feasible for the compiled program.  Then
 (i)   every declared constraint of `ctype 'R'` (objective row included) holds in every scenario at every
       realisation of the support attached to the scenario, at the rule values read off `x`
       (statement of `ro_to_roc_sound`);
-(ii)  every declared expectation constraint (objective row included) holds, row by row, for every distribution
-      of its ambiguity set, at the rule values read off `x` (statement of `dro_rows_sound`);
+(ii)  every declared expectation constraint (objective row included) whose exported data are well-formed
+      (`PiecesWF`: shapes and pattern, the analogue of `hnv`, `hrst`) holds, row by row, for every distribution of
+      its ambiguity set, at the rule values read off `x` (statement of `dro_rows_sound`); that no random coefficient
+      sits on an affinely adaptive decision is not assumed: it follows from `hok` (`droItems_piecesOK`);
 (iii) the epigraph row holds: `var_const[0] = x 1 ≤ x 0`, the objective value of the program. -/
 theorem dro_model_sound (D : DroDesc K) (hD : RuleWF D) (items : List (DItem K)) (nd : ℕ)
     (hok : droItems D = .ok (items, nd))
@@ -620,9 +678,9 @@ theorem dro_model_sound (D : DroDesc K) (hD : RuleWF D) (items : List (DItem K))
       ∀ s < D.S, ∀ z, C03Scen.InSupp E (D.selPz sel) (D.selAmb sel) C.rows.nz s z → ∀ n < C.rows.m,
         if C.eq = true then C.orig.eval n (D.rule.x C.rows.nz s x z) z = 0
         else C.orig.eval n (D.rule.x C.rows.nz s x z) z ≤ 0) ∧
-    (∀ ps eq a, DCon.E ps eq a ∈ D.objc :: D.cons →
+    (∀ ps eq a pat, DCon.E ps eq a pat ∈ D.objc :: D.cons →
       ∀ ai, eAmb D a = some ai → AmbWF (D.amb ai) D.S D.nrand →
-      ∀ (hnp : 0 < ps.length), PiecesOK D ps →
+      ∀ (hnp : 0 < ps.length), PiecesWF D ps pat →
       ∀ h < (if eq then 2 else 1), ∀ i < eRowsOf ps,
       ∀ (π : ℕ → K), (D.amb ai).pro.Feas E π → (∀ s < D.S, 0 ≤ π s) →
       ∀ (Es : ℕ → ((ℕ → K) → K) → K),
@@ -636,8 +694,8 @@ theorem dro_model_sound (D : DroDesc K) (hD : RuleWF D) (items : List (DItem K))
   refine ⟨?_, ?_, ?_⟩
   · intro C sel hc hnv hrst hP
     exact dro_model_sound_R D hD items nd hok E hE hmono x hx C sel hc hnv hrst hP
-  · intro ps eq a hc ai hai hA hnp hps h hh i hi π hπ hπ0 Es hEs ν hν ht hμ
-    exact dro_model_sound_E' D hD items nd hok E hE hEsc hmono x hx ps eq a hc ai hai hA hnp hps h hh i hi
+  · intro ps eq a pat hc ai hai hA hnp hps h hh i hi π hπ hπ0 Es hEs ν hν ht hμ
+    exact dro_model_sound_E' D hD items nd hok E hE hEsc hmono x hx ps eq a pat hc ai hai hA hnp hps h hh i hi
       π hπ hπ0 Es hEs ν hν ht hμ
   · obtain ⟨_, hn0⟩ := droItems_wf D items nd hok
     exact compile_obj items nd E x hx (lt_of_lt_of_le hD.one hn0)
@@ -694,7 +752,7 @@ def exD : DroDesc ℚ :=
     objc := objCon 1 true .ro exObjRows (fun _ => false)
     cons := [.R exC1 .dflt, .R exC2 .dflt] }
 
-lemma exD_objc : exD.objc = .E [exPiece] false none := rfl
+lemma exD_objc : exD.objc = .E [exPiece] false none (fun _ _ _ => false) := rfl
 
 /-- what `droItems` returns (items, `nd`) -/
 def exOut : List (DItem ℚ) × ℕ := match droItems exD with | .ok p => p | .error _ => ([], 0)
@@ -762,9 +820,10 @@ lemma exAmbWF : AmbWF (exD.amb 0) 1 1 where
     subst this; decide
   sup := fun _ _ => C03Scen.exPz_suppWF
 
-lemma exPiecesOK : PiecesOK exD [exPiece] := by
-  intro p hp
-  have : p = exPiece := by simpa using hp
+lemma exPiecesWF : PiecesWF exD [exPiece] (fun _ _ _ => false) := by
+  intro l hl
+  have hl' : l < 1 := hl
+  have : l = 0 := by omega
   subst this
   refine ⟨rfl, rfl, ?_⟩
   intro n j d hne
@@ -852,8 +911,8 @@ theorem ex_sound :
       simp [exC2, exRule, RoRows.detPart]
     rw [e]
     exact h
-  · have h := h2 [exPiece] false none (by rw [exD_objc]; exact List.mem_cons_self) 0 rfl exAmbWF (by decide)
-      exPiecesOK 0 (by decide) 0 (by decide) (fun _ => 1)
+  · have h := h2 [exPiece] false none (fun _ _ _ => false) (by rw [exD_objc]; exact List.mem_cons_self) 0 rfl
+      exAmbWF (by decide) exPiecesWF 0 (by decide) 0 (by decide) (fun _ => 1)
       (by
         refine ⟨⟨?_, fun _ _ => trivial, fun _ _ => trivial⟩, ?_, ?_⟩
         · intro i hi
@@ -919,6 +978,18 @@ example : ¬ (compile exOut.1 exOut.2).Feas (fun _ _ _ => False)
   have h4 := h.lin.rows 4 (by rw [ex_nr]; decide)
   have hub := h.lin.ubs 8 (by rw [ex_nc]; decide)
   revert h4 hub
+  decide +kernel
+
+/-- the check of `dro_to_roc` on an instance: `x` depends affinely on `z` and the objective row `t >= E(x·z - 4)` has
+the random coefficient `x`: the model of `do_math` raises `SyntaxError('Incorrect affine expressions.')` -/
+def exBad : DroDesc ℚ :=
+  { exD with
+    rule := { nv := 2, cc := fun _ d => d + 1, mask := fun d j => d == 1 && j == 0, lcol := fun _ _ _ => 3 }
+    n0 := 4
+    objc := .E [exC1] false none (fun _ _ d => d == 1)
+    cons := [] }
+
+example : (match droItems exBad with | .error e => e | .ok _ => "") = "SyntaxError: Incorrect affine expressions." := by
   decide +kernel
 
 end RsomeV.C03Model
